@@ -6,7 +6,7 @@ record("Arguments", fields={"posonlyargs": "Seq[arg]", "args": "Seq[arg]", "vara
 record("PyFunction", fields={"arguments": "Arguments"})
 
 specdef("n_pos", {"a": "Arguments"}, "Int", "len(a.posonlyargs) + len(a.args)")
-contract("PyFunction.get_param_names", source=M + "PyFunction.get_param_names", params={"self": "PyFunction", "special_args": "Bool"}, returns="Seq[Str]",
+contract("PyFunction.get_param_names", source=M + "PyFunction.get_param_names", params={"self": "PyFunction", "special_args": "Bool"}, defaults={"special_args": "True"}, returns="Seq[Str]",
          modifies=[], raises={},
          ensures=[
              "len(result) == n_pos(self.arguments) + len(self.arguments.kwonlyargs) + ite(special_args and not is_none(self.arguments.vararg), 1, 0) + ite(special_args and not is_none(self.arguments.kwarg), 1, 0)",
